@@ -102,7 +102,7 @@ pub fn run() {
 	cx.note("exhaustive", json!(true));
 	cx.note("state_key", json!("(layout class, port config, frame open?, per character: pre/post seen in the open frame, items in the open frame, per character: was ever absent (validity bitmap materialised), rollback offset, splitter progress, gecko seen, ends seen, rows>=2)"));
 	cx.note("assumptions", json!(["presence of a character in a frame occurrence is defined by the reference walker: it has a Pre and a Post event between the frame's opening and closing events"]));
-	run_histories(A_ONESHOT, A_ROWS, true);
+	run_histories(A_ONESHOT | A_TRANSPOSE, A_ROWS, true);
 	run_bfs(A_ROWS | A_BYTES | A_TRANSPOSE);
 	finish(cx);
 }
